@@ -472,7 +472,7 @@ func run(r *eng.Runner) {
 		r.Do(&LexCase{Src: eng.Q(s)})
 		return !r.Stopped()
 	})
-	pres := []string{"", "x", "\n", "\xc3\xa9\n", "x\r\n", "{# c #}", "{% verbatim %}{{\n{% endverbatim %}", "{{ \"q\\\"\" }}", "a\n\nb"}
+	pres := []string{"", "x", "\n", "\xc3\xa9\n", "x\r\n", "{# c #}", "{% verbatim %}{{\n{% endverbatim %}", "{{ \"q\\\"\" }}", "a\n\nb", "a\n{ b ", "{ }\n{\n", "\n{\n{ c: d }\n"}
 	opens := []string{"{{", "{%", "{{-", "{%-", "{#"}
 	closes := []string{"}}", "%}", "-}}", "-%}", "#}", ""}
 	mid := []string{"a", "1", " ", "\"", "'", "\\", "|", ".", "-", "(", "=", "\xc3\xa9", "\n", "=="}
@@ -481,7 +481,7 @@ func run(r *eng.Runner) {
 	if !r.Quick() {
 		M = 4
 	}
-	r.Group("lex-structured", "c16.lex", fmt.Sprintf("prefix (9) + opening delimiter (5) + <=%d inner symbols (14) + closing delimiter (6) + suffix (3)", M))
+	r.Group("lex-structured", "c16.lex", fmt.Sprintf("prefix (12; three with braces that start nothing after line breaks) + opening delimiter (5) + <=%d inner symbols (14) + closing delimiter (6) + suffix (3)", M))
 	for _, pre := range pres {
 		for _, op := range opens {
 			enum.Strings(mid, M, func(m string, _ []int) bool {
@@ -504,11 +504,11 @@ func run(r *eng.Runner) {
 	sortStrings(names)
 	gaps := []string{" ", "  "}
 	seps := []string{"", "x", "\n", "\xc3\xa9\n", "\r\n"}
-	prefixes := []string{"", "x", "\n", "\xc3\xa9", "xy\n\nz", "\xef\xbb\xbf"}
+	prefixes := []string{"", "x", "\n", "\xc3\xa9", "xy\n\nz", "\xef\xbb\xbf", "s {\n t { u }\n"}
 	if r.Quick() {
 		gaps = []string{" "}
 		seps = []string{"", "\n", "\xc3\xa9\n"}
-		prefixes = []string{"", "\xc3\xa9", "xy\n\nz", "\xef\xbb\xbf"} // the last one: a byte order mark in front of the file
+		prefixes = []string{"", "\xc3\xa9", "xy\n\nz", "\xef\xbb\xbf", "s {\n t { u }\n"} // a byte order mark in front of the file; inline CSS: braces that start nothing
 	}
 	r.Group("error-positions", "c16.err", fmt.Sprintf("%d corpus programs (every tag) x every single-token edit (delete, duplicate, replace by each of %d tokens) x %d gaps x %d separators x %d prefixes; compile and execution errors", len(names), len(replacements), len(gaps), len(seps), len(prefixes)))
 	for _, name := range names {
